@@ -64,3 +64,9 @@ def unI_(ex, st, v):
 def unS__(ex, st, v):
     from pyvc.core import unS
     return Sym("seq", unS(box(v, st)), Spec("seq", Spec("val")))
+
+
+@spec_function()
+def keys_of(ex, st, d):
+    """the insertion-ordered keys of a dict"""
+    return Sym("seq", d.py.keys, Spec("seq", d.py.kspec))
